@@ -124,6 +124,11 @@ func loadContracts(repoGo string, specDir string) *Contracts {
 	for _, f := range specs {
 		cs.parseFile(f, "", "")
 	}
+	for _, fc := range cs.Funcs {
+		if fc.Ext {
+			fc.Trusted = true
+		}
+	}
 	return cs
 }
 
@@ -262,6 +267,13 @@ func (cs *Contracts) parseFile(fname, pkg, prefix string) {
 		}
 		kind, props, rest := m[1], parseProps(m[2]), strings.TrimSpace(m[3])
 		c := &Clause{Kind: kind, Props: props, Text: rest, File: fname, Line: l.line}
+		if strings.HasPrefix(rest, "@") && kind != "let" && kind != "set" {
+			if i := strings.IndexAny(rest, " \t"); i > 0 {
+				c.Label = rest[1:i]
+				rest = strings.TrimSpace(rest[i:])
+				c.Text = rest
+			}
+		}
 		parse := func(s string) {
 			e, err := parseExpr(s)
 			if err != nil {
@@ -333,6 +345,12 @@ func (cs *Contracts) parseFile(fname, pkg, prefix string) {
 				j := strings.Index(r[1:], "\"")
 				c.Header = r[1 : 1+j]
 				r = strings.TrimSpace(r[j+2:])
+			}
+			if strings.HasPrefix(r, "@") {
+				if i := strings.IndexAny(r, " \t"); i > 0 {
+					c.Label = r[1:i]
+					r = strings.TrimSpace(r[i:])
+				}
 			}
 			parse(r)
 			if kind == "invariant" {
@@ -406,4 +424,11 @@ func parseSpecFunc(s string) (*SpecFunc, error) {
 		sf.Result = rest
 	}
 	return sf, nil
+}
+
+func (c *Clause) name() string {
+	if c.Label != "" {
+		return "@" + c.Label
+	}
+	return c.Text
 }
